@@ -857,7 +857,6 @@ func c18R3(r *Report) {
 	r.Sentinel("R3", len(names), 4)
 }
 
-
 // c18OneRequest: the web-seed gate is evaluated once, by the event loop, when a fetch is scheduled; the fetcher runs
 // in its own goroutine and cannot read the setting.  What the gate covers is therefore one pass over the scheduled
 // range: the fetcher issues each request once, without waiting.  A fetcher that sleeps, or that issues a second
